@@ -461,8 +461,7 @@ static bool mi_os_decommit_ex(void* addr, size_t size, bool* needs_recommit, siz
   if (err != 0) {
     _mi_warning_message("cannot decommit OS memory (error: %d (0x%x), address: %p, size: 0x%zx bytes)\n", err, err, start, csize);
   }
-  mi_assert_internal(err == 0);
-  return (err == 0);
+  return (err == 0);  // (the OS may refuse; callers handle `false`)
 }
 
 bool _mi_os_decommit(void* addr, size_t size) {
